@@ -136,11 +136,19 @@ impl<'a> Scanner<'a> {
                 if col > 40 {
                     // Trim beginning of line to fit it on screen.
                     msg.push_str("...");
-                    context = &context[col - 20..];
-                    col = 3 + 20;
+                    let mut start = col - 20;
+                    while !context.is_char_boundary(start) {
+                        start -= 1;
+                    }
+                    context = &context[start..];
+                    col = 3 + (col - start);
                 }
                 if context.len() > 40 {
-                    context = &context[0..40];
+                    let mut end = 40;
+                    while !context.is_char_boundary(end) {
+                        end -= 1;
+                    }
+                    context = &context[0..end];
                     msg.push_str(context);
                     msg.push_str("...");
                 } else {
